@@ -105,6 +105,17 @@ class C01(CheckBase):
         if rng.chance(0.03):
             return self.gen_manylines(rng, tier)
         image = dfswork.gen_image(rng, kind=rng.weighted([(6, 'single'), (3, 'interleaved'), (2, 'two-sided')]))
+        if rng.chance(0.04):
+            # the largest discs there are: 80 tracks of 16 or 18 sectors, Watford format (up to 62 files)
+            image = {'ext': 'sdd', 'surfaces': [dd.gen_surface(rng, variant='watford', geom=rng.choice([(80, 18), (80, 18), (80, 16)]), img_id=1).to_json()]}
+        if len(image['surfaces']) == 1 and image['ext'] in ('ssd', 'sdd'):
+            sj = image['surfaces'][0]
+            if sj['variant'] == 'watford' and sj['tracks'] * sj['spt'] > 1023 and rng.chance(0.6):
+                # an 80-track double-density Watford disc has 1280 or 1440 sectors: Watford DDFS records the true
+                # figure using bit 10 of the sector count (file start sectors still have 10 bits).  Only as the one
+                # surface of its image: the probing rules for a *second* side validate its catalogue with a 10-bit
+                # count (identification is C13's subject), and the Acorn format has no such bit
+                sj['volumes'][0]['total'] = sj['tracks'] * sj['spt']
         si = rng.below(len(image['surfaces']))
         s = dd.Surface.from_json(image['surfaces'][si])
         vi = rng.below(len(s.volumes))
